@@ -419,3 +419,19 @@ for _p, _c in CHECKS.items():
     for _e in _c.get("engines", []):
         if _e.get("engine") == "reactive":
             _e.pop("args", None)
+
+# --- C09: adoption procedure as Lean theorems over Model/Hydrate.lean (delivered by a proof sub-agent)
+HY = "SycVerif.Hydrate."
+CHECKS["C09"]["lean_modules"] = ["SycVerif.Props.C12Keys", "SycVerif.Props.C08", "SycVerif.Props.C09"]
+CHECKS["C09"]["theorems"] += [HY + n for n in ["C09_hydrate_total", "C09_hydrate_total_fuel", "C09_fuel_irrelevant", "C09_visible_unchanged", "C09_all_adopted_once",
+                                                "C09_markers_consumed", "C09_matches_client_render", "C09_server_matches_client_render", "C09_mount_hypotheses", "C09_mounted_view"]]
+CHECKS["C09"]["status"] = ("adoption proved over the model for every Show-free view, every store: hydrating the server document of a view never fails (C09_hydrate_total, any fuel above an explicit bound), "
+                           "leaves the visible tree unchanged (C09_visible_unchanged), adopts every server element exactly once and creates none (C09_all_adopted_once), consumes every `<!--/-->` and `<!--t-->` "
+                           "marker and leaves one `<!--#-->` per dynamic region (C09_markers_consumed), and the result is the tree a client render of the same view and state produces (C09_matches_client_render); "
+                           "keys_agree and the round trip proved; Show hydration is a known finding (D12) and is excluded by the hypothesis ShowFreeList")
+CHECKS["C09"]["partial"] = [{"theorem": "C09 for views containing Show", "missing": "false on the real code (known finding D12); the model has no Show adoption"},
+                            {"theorem": "C09_hydrate_total_showFree_only", "missing": "the model recognises adopted elements by a stamp attribute named U+0001; a view that itself uses that attribute name is excluded by the extra hypothesis StampFreeList (proved necessary: Example.C09_stamp_hypothesis_needed) — an encoding artefact, the generator never produces such names"},
+                            {"theorem": "reactivity after hydration", "missing": "that the adopted document then follows signal writes is C05 over the adopted nodes; the identification of the hydrated state with a mounted C05 state is by correspondence (the engine writes signals after hydrating)"}]
+CHECKS["C09"]["manifest_note"] = ("Model/Hydrate.lean mirrors HydrateNode::append_child / hydrate_in_scope (k-th dynamic region finds its `<!--/-->` end marker, dynamic text splits off after `<!--t-->`, elements are looked up by key) "
+                                  "and is run by the driver against the real hydrate back end on every generated view (document structure after hydration and after each write). Known finding D12: hydrating the Show component — reported as KNOWN-FINDING; "
+                                  "any other hydration failure is a violation. Views with NoHydrate/NoSsr/Keyed are not in the view language yet.")
